@@ -251,9 +251,11 @@ impl MapRun {
                     // refresh in place instead of dropping every other time
                     self.verify_held()?;
                     if self.long_age % 2 == 0 {
-                        self.long.as_mut().unwrap().g.refresh();
+                        // a refreshed guard no longer protects what was read before: for the ledger
+                        // it dies here and is born again after the refresh
                         let id = self.long.as_ref().unwrap().id;
                         guard_died(id);
+                        self.long.as_mut().unwrap().g.refresh();
                         let (nid, _) = guard_born();
                         self.long.as_mut().unwrap().id = nid;
                         self.long_age = 0;
